@@ -36,6 +36,7 @@ def gen(tier, seed):
     yield from handbuilt2()
     yield from handbuilt3()
     yield from handbuilt4()
+    yield from handbuilt5()
     rng = core.seeded_rng(seed, 'c01')
     nrand = 60000 if tier == 'quick' else 600000
     for _ in range(nrand):
@@ -101,6 +102,22 @@ def handbuilt4():
     for t1, t2 in (('s|a = 1 a = 2', 'a = 3 s|a = 4 a = 5 s|b = p b = q'), ('s { a = 7 } a = 8 s|a = 9 a = 10', 's|l += { 3 } l += { 4 } s|l = { } l = { 5 }'),
                    ('m { } m|a = 2 a = 3 m { a = 4 } "m=1|a" = 5 a = 6', 'b = r s|b = t b = u')):
         yield {'decls': [d.to_json() for d in decls], 'flags': 0, 'texts': [T(t1), T(t2)], 'style': 'plain'}
+
+
+def handbuilt5():
+    """sizes: lists, section sequences and free-form keys that cross every array-growth step"""
+    decls = [D('il', 'int', F_LIST, default=[1, 2]), D('sl', 'str', F_LIST, default=None), D('m', 'sec', F_MULTI, sub=[D('x', 'int', default=0)]),
+             D('t', 'sec', F_MULTI | F_TITLE, sub=[D('x', 'int', default=0), D('xl', 'int', F_LIST, default=[7])]), D('kv', 'sec', core.F_KEYSTRVAL, sub=[]), D('i', 'int', default=1)]
+    for n in (16, 17, 33, 65, 257, 1025, 4097):
+        il = 'il = { ' + ' , '.join(str(k) for k in range(n)) + ' }'
+        sl = ' '.join('sl += w%d' % k for k in range(min(n, 300)))
+        ms = ' '.join('m { x = %d }' % k for k in range(min(n, 600)))
+        ts = ' '.join('t n%d { x = %d }' % (k, k) for k in range(min(n, 600)))
+        ts2 = ' '.join('t n%d { xl += { %d } }' % (k, k) for k in range(0, min(n, 600), 3))
+        kv = 'kv { ' + ' '.join('k%d = v%d' % (k, k) for k in range(min(n, 600))) + ' }'
+        kv2 = 'kv { ' + ' '.join('k%d = w%d' % (k, k) for k in range(0, min(n, 600), 2)) + ' }'
+        for t1, t2 in ((il + ' ' + ms, 'il += { 5 } ' + sl), (ts + ' ' + kv, ts2 + ' ' + kv2 + ' i = 2')):
+            yield {'decls': [d.to_json() for d in decls], 'flags': 0, 'texts': [T(t1), T(t2)], 'style': 'plain', 'entry': ['buf', 'fp', 'file'][n % 3]}
 
 
 def handbuilt3():
